@@ -8005,7 +8005,8 @@ func (e *ExpressionEmitter) emitImageSample(sample ir.ExprImageSample) (uint32, 
 type imageCoordinates struct {
 	valueID uint32
 	typeID  uint32
-	size    int // 0 for scalar, 2/3/4 for vector
+	size    int           // 0 for scalar, 2/3/4 for vector
+	scalar  ir.ScalarType // component type (i32 or u32)
 }
 
 // emitImageCoordinates builds a SPIR-V coordinate vector, combining coordinates
@@ -8032,10 +8033,15 @@ func (e *ExpressionEmitter) emitImageCoordinates(
 			return imageCoordinates{}, err
 		}
 		size := 0
-		if vec, ok := coordInner.(ir.VectorType); ok {
-			size = int(vec.Size)
+		scalar := ir.ScalarType{Kind: ir.ScalarSint, Width: 4}
+		switch inner := coordInner.(type) {
+		case ir.VectorType:
+			size = int(inner.Size)
+			scalar = inner.Scalar
+		case ir.ScalarType:
+			scalar = inner
 		}
-		return imageCoordinates{valueID: coordID, typeID: typeID, size: size}, nil
+		return imageCoordinates{valueID: coordID, typeID: typeID, size: size, scalar: scalar}, nil
 	}
 
 	arrayIndexID, err := e.emitExpression(*arrayIndex)
@@ -8093,7 +8099,7 @@ func (e *ExpressionEmitter) emitImageCoordinates(
 	ib.AddWord(arrayIndexID)
 	e.backend.builder.funcAppend(ib.Build(OpCompositeConstruct))
 
-	return imageCoordinates{valueID: combinedID, typeID: combinedTypeID, size: newSize}, nil
+	return imageCoordinates{valueID: combinedID, typeID: combinedTypeID, size: newSize, scalar: componentScalar}, nil
 }
 
 // emitImageFetchOrRead emits the actual image access instruction.
@@ -8321,14 +8327,24 @@ func (e *ExpressionEmitter) emitImageLoadRestrict(
 		e.backend.builder.funcAppend(ib.Build(OpImageQuerySize))
 	}
 
-	// Build "ones" for coordinate bounds: scalar 1 or vec of 1s
+	// Build "ones" for coordinate bounds: scalar 1 or vec of 1s, of the
+	// coordinates' component type (the constituents of a constant vector
+	// must have exactly its component type).
+	coordOneID := oneID
+	if coords.scalar.Kind == ir.ScalarUint {
+		u32TypeID, err := e.backend.emitScalarType(coords.scalar)
+		if err != nil {
+			return 0, err
+		}
+		coordOneID = e.backend.builder.AddConstant(u32TypeID, 1)
+	}
 	var onesID uint32
 	if coords.size == 0 {
-		onesID = oneID
+		onesID = coordOneID
 	} else {
 		ones := make([]uint32, coords.size)
 		for i := range ones {
-			ones[i] = oneID
+			ones[i] = coordOneID
 		}
 		onesID = e.backend.builder.AddConstantComposite(coords.typeID, ones...)
 	}
